@@ -73,7 +73,7 @@ void hist_print(struct sb *b, const struct hist *h)
 }
 
 /* ------------------------------------------------------------------ root configurations */
-static const char *CFGNAMES[] = { "default", "keepall+disallowed", "structure", "keepall+support" };
+static const char *CFGNAMES[] = { "default", "keepall+disallowed", "structure", "keepall+support", "keepall+no-annotations" };
 int hist_ncfg(void) { return 4; }
 const char *hist_cfg_name(int i) { return CFGNAMES[i]; }
 void hist_cfg(int i, struct ucfg *c)
@@ -83,6 +83,7 @@ void hist_cfg(int i, struct ucfg *c)
   case 0: break;
   case 1: c->all_filter = HWLOC_TYPE_FILTER_KEEP_ALL; c->flags = HWLOC_TOPOLOGY_FLAG_INCLUDE_DISALLOWED; break;
   case 2: c->all_filter = HWLOC_TYPE_FILTER_KEEP_STRUCTURE; c->group_setter = 3; c->group_filter = HWLOC_TYPE_FILTER_KEEP_ALL; c->filt[HWLOC_OBJ_MISC] = HWLOC_TYPE_FILTER_KEEP_ALL; break;
+  case 4: c->all_filter = HWLOC_TYPE_FILTER_KEEP_ALL; c->flags = HWLOC_TOPOLOGY_FLAG_NO_DISTANCES | HWLOC_TOPOLOGY_FLAG_NO_MEMATTRS | HWLOC_TOPOLOGY_FLAG_NO_CPUKINDS; break;   /* extra configuration, not counted by hist_ncfg(): discovery of the three annotation kinds disabled, user-added ones still live (C19) */
   case 3: c->all_filter = HWLOC_TYPE_FILTER_KEEP_ALL; c->flags = HWLOC_TOPOLOGY_FLAG_IMPORT_SUPPORT; break;   /* support bits of the file (fixture support.xml) become part of the state */
   }
 }
